@@ -553,6 +553,10 @@ pub fn run(cfg: &Config) -> Value {
         go!(PrefixTree0, cfg.depth_small.max(8));
         go!(PrefixTree1, cfg.depth_small);
         go!(PrefixTree2, cfg.depth_small);
+        if cfg.rich {
+            // thorough: additionally the small pool {0,1}^2, which is explored to a fixpoint
+            hs.push(sc.spawn(move || explore::<PrefixTree2>(cfg.depth_small, cfg.state_cap, cfg.wall_cap_s, false)));
+        }
         go!(PrefixTree3, cfg.depth_large);
         go!(PrefixTree4, cfg.depth_large);
         go!(PrefixTree5, cfg.depth_large);
